@@ -1059,3 +1059,87 @@ package keyvalue
 //@   ensures "inv" fsMem(fs)
 //@   ensures "tree" [C03] implies(isMem(fs) && old(treeInv(fs)), treeInv(fs))
 //@   nopanic
+
+// ---- MkdirAll and its look-up chain (mem world) ----
+//@ spec infoIsDir(info hackpadfs.FileInfo) := rawMode(infoOf(info).Record) & hackpadfs.ModeDir != 0
+
+//@ func isMissingDir(path string, info hackpadfs.FileInfo, err error) (missing bool, returnedErr error)
+//@   props C01 C03 C05
+//@   dispatch hackpadfs.FileInfo fileInfo
+//@   dispatch FileRecord mem.fileRecord
+//@   requires implies(err == nil, isType(info, fileInfo) && isMemRec(infoOf(info).Record))
+//@   ensures "missing" implies(errIs(err, hackpadfs.ErrNotExist), missing && returnedErr == nil)
+//@   ensures "error" implies(err != nil && !errIs(err, hackpadfs.ErrNotExist), !missing && returnedErr == err)
+//@   ensures "dir" implies(err == nil && infoIsDir(info), !missing && returnedErr == nil)
+//@   ensures "file" implies(err == nil && !infoIsDir(info), missing && pathErr(returnedErr, "mkdir", path) && errIs(returnedErr, hackpadfs.ErrNotDir) && innerErr(returnedErr) == hackpadfs.ErrNotDir)
+//@   pure
+//@   nopanic
+
+//@ spec infoFor(info hackpadfs.FileInfo, e error, store *transactionOnly, p string) := isType(info, fileInfo) && allocated(payload(info)) && infoOf(info).Path == p &&
+//@        ite(in(p, dom(tsRecs(store))), e == nil && infoOf(info).Record == tsRecs(store)[p] && mem.recOK(infoOf(info).Record, memStoreOf(store.store), p),
+//@            e == hackpadfs.ErrNotExist && infoOf(info).Record == nil)
+
+//@ func statAll(store *transactionOnly, paths []string) (infos []hackpadfs.FileInfo, errs []error)
+//@   props C01 C03 C14
+//@   requires tsMem(store) && len(paths) < 1<<30
+//@   modifies held(memStoreOf(store.store).mu)
+//@   loop 1 invariant "shape" rangeindex >= -1 && rangeindex < max(len(paths), 1) && (len(paths) > 0 || rangeindex == -1) &&
+//@                      len(infos) == len(paths) && len(errs) == len(paths) && fresh(infos) && fresh(errs) && len(results) == len(paths) && tsMem(store)
+//@   loop 1 invariant "results" forall(j, 0, len(paths), resFor(results[j], store, paths[j]))
+//@   loop 1 invariant "infos" forall(j, 0, rangeindex + 1, infoFor(infos[j], errs[j], store, paths[j]))
+//@   ensures "shape" len(infos) == len(paths) && len(errs) == len(paths) && fresh(infos) && fresh(errs)
+//@   ensures "infos" forall(j, 0, len(paths), infoFor(infos[j], errs[j], store, paths[j]))
+//@   ensures "unlocked" tsMem(store)
+//@   nopanic
+
+// the chain name, dir(name), dir(dir(name)), ... of missing directories, nearest existing ancestor excluded
+//@ spec chainOK(dirs []string, name string) := forall(i, 0, len(dirs), VP(dirs[i])) && implies(len(dirs) > 0, dirs[0] == name) &&
+//@        forall(i, 0, len(dirs) - 1, dirs[i] != "." && dirs[i+1] == pdir(dirs[i]))
+
+//@ func (fs *FS) findMissingDirs(name string) (dirs []string, err error)
+//@   props C01 C03 C04 C05
+//@   requires fsMem(fs) && len(name) < 1<<30
+//@   use dirValidAll()
+//@   use dirLenAll()
+//@   modifies held(ms(fs).mu)
+//@   loop 1 invariant "chain" VP(currentPath) && len(paths) + len(currentPath) <= len(name) + 1 && ((ref(paths) == 0 && cap(paths) == 0 && len(paths) == 0) || fresh(paths)) &&
+//@                      forall(i, 0, len(paths), VP(paths[i]) && paths[i] != ".") && implies(len(paths) > 0, paths[0] == name) &&
+//@                      forall(i, 0, len(paths) - 1, paths[i+1] == pdir(paths[i])) &&
+//@                      currentPath == ite(len(paths) == 0, name, pdir(paths[len(paths) - 1])) && fsMem(fs)
+//@   loop 2 invariant "prefix" rangeindex >= -1 && rangeindex < len(paths) && len(missingDirs) == rangeindex + 1 && ((ref(missingDirs) == 0 && cap(missingDirs) == 0 && len(missingDirs) == 0) || fresh(missingDirs)) &&
+//@                      forall(j, 0, rangeindex + 1, missingDirs[j] == paths[j] && !kvHas(fs, paths[j])) &&
+//@                      len(paths) >= 1 && len(paths) <= len(name) + 2 && paths[len(paths) - 1] == "." && paths[0] == ite(len(paths) == 1, ".", name) &&
+//@                      forall(i, 0, len(paths), VP(paths[i])) && forall(i, 0, len(paths) - 1, paths[i] != "." && paths[i+1] == pdir(paths[i])) &&
+//@                      len(infos) == len(paths) && len(errs) == len(paths) && forall(j, 0, len(paths), infoFor(infos[j], errs[j], fs.store, paths[j])) && fsMem(fs)
+//@   ensures "gate" [C04] implies(!VP(name), dirs == nil && err == hackpadfs.ErrInvalid)
+//@   ensures "chain" implies(err == nil, chainOK(dirs, name) && forall(i, 0, len(dirs), !kvHas(fs, dirs[i])))
+//@   ensures "anchor" implies(err == nil && len(dirs) > 0 && dirs[len(dirs) - 1] != ".", kvHas(fs, pdir(dirs[len(dirs) - 1])) && memIsDir(fs, pdir(dirs[len(dirs) - 1])))
+//@   ensures "exists" implies(err == nil && len(dirs) == 0, kvHas(fs, name) && memIsDir(fs, name))
+//@   ensures "not-dir" [C05] implies(VP(name) && err != nil, isPathError(err) && errIs(err, hackpadfs.ErrNotDir) && innerErr(err) == hackpadfs.ErrNotDir &&
+//@                     kvHas(fs, pathOf(err)) && !memIsDir(fs, pathOf(err)))
+//@   ensures "inv" fsMem(fs)
+//@   nopanic
+
+//@ spec dirMode(perm hackpadfs.FileMode) := hackpadfs.ModeDir | (perm & hackpadfs.ModePerm)
+//@ spec oldKept(fs *FS) := forall(k, string, implies(old(kvHas(fs, k)), kvHas(fs, k) && kvRec(fs, k) == old(kvRec(fs, k))))
+//@ spec newAreDirs(fs *FS, perm hackpadfs.FileMode) := forall(k, string, implies(kvHas(fs, k) && !old(kvHas(fs, k)), isType(kvRec(fs, k), mem.fileRecord) && memRec(fs, k).mode == dirMode(perm)))
+
+//@ func (fs *FS) MkdirAll(path string, perm hackpadfs.FileMode) (err error)
+//@   props C01 C03 C04 C05
+//@   requires fsMem(fs) && len(path) < 1<<30
+//@   use dirValidAll()
+//@   modifies world(), mapOf(ms(fs).records)
+//@   loop 1 modifies mapOf(ms(fs).records), held(ms(fs).mu), world()
+//@   loop 1 invariant "built" i >= -1 && i < len(missingDirs) && chainOK(missingDirs, path) && fsMem(fs) && world() == old(world()) &&
+//@                      forall(j, 0, i + 1, !kvHas(fs, missingDirs[j])) &&
+//@                      forall(j, i + 1, len(missingDirs), kvHas(fs, missingDirs[j]) && memIsDir(fs, missingDirs[j])) &&
+//@                      implies(len(missingDirs) > 0 && missingDirs[len(missingDirs) - 1] != ".", kvHas(fs, pdir(missingDirs[len(missingDirs) - 1])) && memIsDir(fs, pdir(missingDirs[len(missingDirs) - 1]))) &&
+//@                      oldKept(fs) && newAreDirs(fs, perm) && implies(old(treeInv(fs)), treeInv(fs))
+//@   ensures "gate" [C04] implies(!VP(path), errIs(err, hackpadfs.ErrInvalid) && memSame(fs))
+//@   ensures "typed" [C05] implies(err != nil, isPathError(err))
+//@   ensures "not-dir" [C01 C05] implies(VP(path) && err != nil, errIs(err, hackpadfs.ErrNotDir) && old(kvHas(fs, pathOf(err))) && !old(memIsDir(fs, pathOf(err))) && memSame(fs))
+//@   ensures "made" [C01 C03] implies(err == nil, kvHas(fs, path) && memIsDir(fs, path) && oldKept(fs) && newAreDirs(fs, perm))
+//@   ensures "tree" [C03] implies(old(treeInv(fs)), treeInv(fs))
+//@   ensures "mem-world" world() == old(world())
+//@   ensures "inv" fsMem(fs)
+//@   nopanic
